@@ -1419,7 +1419,7 @@ def suite_scopes(exe, tier, seed):
     d = tempfile.mkdtemp(prefix="vx-e2e-")
     def add(ob, inp, what):
         if len(viol) < 20 and not any(v["obligation"] == f"e2e|scopes|{ob}" for v in viol):
-            viol.append({"unit": "e2e", "fn": "ensure_unique_variables / SSA renaming (whole pipeline)", "obligation": f"e2e|scopes|{ob}", "props": ["C10"],
+            viol.append({"unit": "e2e", "fn": "ensure_unique_variables / SSA renaming (whole pipeline)", "obligation": f"e2e|scopes|{ob}", "props": ["C10", "C14"] if ob.startswith("ssa:") else ["C10"],
                          "input": inp, "what": what, "replay": "python3 run/e2e.py scopes quick 0"})
     try:
         # ---- repeated parameter names are reported (CS0002), wherever the repetition stands, for functions and templates
